@@ -63,6 +63,9 @@ func (e *Engine) intrinsic(st *State, fr *Frame, x *ssa.Call, callee *ssa.Functi
 	if e.lockIntrinsic(st, fr, x, name, args) {
 		return nil, true
 	}
+	if res, ok := e.atomicIntrinsic(st, fr, x, name, callee, args); ok {
+		return res, true
+	}
 	switch name {
 	case "errors.Is":
 		a, b := args[0].(VErr), args[1].(VErr)
@@ -441,4 +444,134 @@ func (e *Engine) tableFacts(st *State, m VMap) {
 		vs := Select(Select(vh, m.Ref), k)
 		st.facts = append(st.facts, Forall([]*Term{k}, [][]*Term{{vs}}, Eq(vs, val)))
 	}
+}
+
+// ---- atomics: modelled as sequentially consistent cells ------------------------------------------------
+
+// atomicCell descends into the wrapper struct of an atomic type to the field that carries the value.
+func atomicCell(l *Loc, t types.Type) (*Loc, types.Type) {
+	for {
+		st, ok := under(t).(*types.Struct)
+		if !ok {
+			return l, t
+		}
+		found := false
+		for i := 0; i < st.NumFields(); i++ {
+			if len(leavesOf(st.Field(i).Type())) > 0 {
+				nl := *l
+				nl.Path = append(append([]pathStep(nil), l.Path...), pathStep{Field: i})
+				l, t = &nl, st.Field(i).Type()
+				found = true
+				break
+			}
+		}
+		if !found {
+			return l, t
+		}
+	}
+}
+
+func (e *Engine) atomicIntrinsic(st *State, fr *Frame, x *ssa.Call, name string, callee *ssa.Function, args []Val) ([]Val, bool) {
+	var typ string
+	switch {
+	case strings.HasPrefix(name, "(*go.uber.org/atomic."):
+		typ = name[len("(*go.uber.org/atomic."):]
+	case strings.HasPrefix(name, "(*sync/atomic."):
+		typ = name[len("(*sync/atomic."):]
+	default:
+		return nil, false
+	}
+	i := strings.Index(typ, ").")
+	if i < 0 {
+		return nil, false
+	}
+	method := typ[i+2:]
+	typ = typ[:i]
+	p, ok := args[0].(VPtr)
+	if !ok || p.L == nil {
+		return nil, false
+	}
+	e.Assumptions["atomic variables ("+name[2:strings.Index(name, ")")]+") are modelled as sequentially consistent cells; interference by other goroutines between two accesses in one function is not modelled"] = true
+	cell, ct := atomicCell(p.L, p.Elem)
+	isTime := typ == "Time"
+	isBool := typ == "Bool"
+	timeTag := Num(int64(e.typeTag(types.Universe.Lookup("int").Type()))) // placeholder, replaced below
+	if isTime {
+		if tt := e.lookupTimeType(); tt != nil {
+			timeTag = Num(int64(e.typeTag(tt)))
+		}
+	}
+	fromCell := func(v Val) Val {
+		switch {
+		case isTime:
+			iv := v.(VIface)
+			return VTime{Ite(Eq(iv.Tag, timeTag), iv.Data, Zero)}
+		case isBool:
+			return VBool{Ne(v.(VInt).T, Zero)}
+		}
+		return v
+	}
+	toCell := func(v Val) Val {
+		switch {
+		case isTime:
+			return VIface{Tag: timeTag, Data: v.(VTime).T, T: ct}
+		case isBool:
+			return VInt{Ite(v.(VBool).T, One, Zero)}
+		}
+		return v
+	}
+	ii, isInt := intOf(ct)
+	switch method {
+	case "Load":
+		return []Val{fromCell(e.load(st, cell))}, true
+	case "Store":
+		e.store(st, cell, toCell(args[1]))
+		return nil, true
+	case "Swap":
+		old := fromCell(e.load(st, cell))
+		e.store(st, cell, toCell(args[1]))
+		return []Val{old}, true
+	case "Add", "Sub", "Inc", "Dec":
+		if !isInt {
+			return nil, false
+		}
+		cur := e.load(st, cell).(VInt).T
+		var d *Term
+		switch method {
+		case "Add":
+			d = args[1].(VInt).T
+		case "Sub":
+			d = Neg(args[1].(VInt).T)
+		case "Inc":
+			d = One
+		case "Dec":
+			d = Num(-1)
+		}
+		nv := ii.wrap(Add(cur, d))
+		e.store(st, cell, VInt{nv})
+		return []Val{VInt{nv}}, true
+	case "CAS", "CompareAndSwap":
+		cur := e.load(st, cell)
+		oldc, newc := toCell(args[1]), toCell(args[2])
+		fo, fc := Flatten(oldc), Flatten(cur)
+		var eqs []*Term
+		for k := range fo {
+			eqs = append(eqs, Eq(fo[k], fc[k]))
+		}
+		cond := And(eqs...)
+		e.store(st, cell, iteVal(cond, newc, cur))
+		return []Val{VBool{cond}}, true
+	}
+	return nil, false
+}
+
+func (e *Engine) lookupTimeType() types.Type {
+	for _, p := range e.Prog.AllPackages() {
+		if p.Pkg.Path() == "time" {
+			if o := p.Pkg.Scope().Lookup("Time"); o != nil {
+				return o.Type()
+			}
+		}
+	}
+	return nil
 }
